@@ -16,7 +16,7 @@ func init() {
 		ID: "C15",
 		Explanation: "Decides structural necessary conditions of C15: (R-C15-1) level trigger: every watcher is created with a ready channel of constant capacity >= 1 and notify sends on it only inside a select with a default (never blocks the poller; a pending notification is never lost, further ones coalesce); " +
 			"(R-C15-2) in the apply phase every notify for a name is dominated by the install for that same name within the same critical section, and every installing iteration reaches the notification loop over that name's watchers; (R-C15-3) registration: the watcher is appended to the watcher list of the looked-up name under the lock and wraps the handle of that same name; NewUpdater builds its initial value from the watcher it registered (so an install between registration and first read is either seen or signalled); " +
-			"(R-C15-4) Updater.value and Updater.err are accessed only with Updater.mu held; (R-C15-5) rebuild discipline in Updater.Get: the builder runs only on the ready edge of a non-blocking receive from the watcher, with the watcher's current bytes; the store to value and the Close of the previous value are edge-dominated by the builder's nil error; what is closed is the value loaded before the store, never the new one, at most once; err is stored on both edges; the result is the field's value after the update. (R-C15-6) inside the client library every receive from a watcher's ready channel lies in Updater.Get or a helper of it (a notification is consumed only where it triggers the rebuild). (R-C15-5, extended) once the notification has been consumed every path rebuilds before returning; (R-C15-7) watcher.notify is called only where a poll result has just been installed.",
+			"(R-C15-4) Updater.value and Updater.err are accessed only with Updater.mu held; (R-C15-5) rebuild discipline in Updater.Get: the builder runs only on the ready edge of a non-blocking receive from the watcher, with the watcher's current bytes; the store to value and the Close of the previous value are edge-dominated by the builder's nil error; what is closed is the value loaded before the store, never the new one, at most once; err is stored on both edges; the result is the field's value after the update. (R-C15-6) inside the client library every receive from a watcher's ready channel lies in Updater.Get or a helper of it (a notification is consumed only where it triggers the rebuild). (R-C15-5, extended) once the notification has been consumed every path rebuilds before returning; (R-C15-7) watcher.notify is called only where a poll result has just been installed. (R-C15-5, extended) with a successful rebuild and an old value that is an io.Closer no path reaches the replacement around the Close; (R-C15-8) the entry a watcher's handle reads is never removed once the handle exists (C19's R-C19-1).",
 		NotDecided:  "Sequences of values observed over histories; that a user-supplied builder is deterministic.",
 		Trusted:     commonTrusted,
 		Assumptions: []string{"a buffered channel of capacity >= 1 with non-blocking sends keeps at least one pending notification"},
